@@ -17,7 +17,7 @@ TECH = {
  "C06": "operand-role rules on the symbolic paths of Set/Unset/Merge/Pluck/Keys/Values/Contains with loop-header simulation; SSA purity (E3)",
  "C07": "truth tables over the decision atoms of the 7 isEqual implementations' symbolic paths; in-order complete element loop in normal form; purity via E3",
  "C08": "SSA origin analysis (E3 DEEP/OWN): origins of every value stored into the fresh copy; coverage of the copy loop on symbolic paths; scalar copy typing",
- "C09": "SSA write-effect and spine-ownership analysis (E3 PURE/OWN) with fix-point function summaries, generic instances, and ownership obligations transferred to call sites of private constructor helpers",
+ "C09": "SSA write-effect and spine-ownership analysis (E3 PURE/OWN/RESULT-FRESH) with fix-point function summaries, generic instances, literal parameters of private higher-order helpers, and ownership obligations transferred to call sites of private constructor helpers",
  "C10": "string folding: the symbolic paths of GetTF/TypeOfTF are evaluated over every path string over {.,#,a,1} up to length 5 against a step-by-step navigation oracle on the same atoms",
  "C11": "string folding of SetTF/UnsetTF over all short path strings: reject-before-write, reuse-or-replace kind triples, padding loop simulated with the live count, mutation frame",
  "C12": "type-case paths of parseVal and the From-constructors (value-preserving conversion chains, element-wise construction); kind-table bijection; PRODUCERS via SSA origins (E3)",
@@ -27,7 +27,7 @@ TECH = {
  "C16": "guard domain and indentation unit folded over 0..10; argument roles of json.Indent on symbolic paths; inherits the C02 emission folding and float marking",
  "C17": "Sort: kind test / typed slice / trusted sort / spine rebuild agreement on type-case paths; Reverse: header simulated for n=0..9 giving the exact swapped index pairs",
  "C18": "constant evaluation of identities; accumulation operators on loop normal form; Min/Max reducers folded numerically over a float/int sample grid in their captured environment; presence-flag dataflow",
- "C19": "SSA returns-summary classification (E3) of every self-typed interface method; Init/Ego/ptr discipline; hand-out origins",
+ "C19": "SSA returns-summary classification (E3) of every self-typed interface method; Init/Ego/ptr discipline incl. whole-struct stores; hand-out origins; no concrete-container type test on stored elements; parseVal container arms on symbolic case paths",
  "C20": "line-counter rule: transition-table delta per character class for every entry, pointer identity at nested calls, seed expression folded over short inputs, integers flowing into error formats traced on symbolic paths",
 }
 NOTE = ("Trusted base (DESIGN.md §7): go/types, go/ssa, go/packages of x/tools v0.29.0; the library-language table for strconv / encoding/json / sort / unicode / utf8 / strings; "
